@@ -21,6 +21,7 @@ def cases(rng, tier):
     fams = [("layout", G.gen_layout), ("exprs", G.gen_exprs), ("range", G.gen_range), ("provisional", G.gen_provisional), ("macros", G.gen_macros),
             ("emacros", G.gen_emacros), ("forwarding", G.gen_forwarding), ("autopush", G.gen_autopush)]
     cs = family_cases(rng, fams, n, faults=0.7)
+    cs += family_cases(rng, [("nested-frames", G.gen_nested_frames), ("selfshift", G.gen_selfshift)], n // 2, faults=0.3)
     if tier == "thorough":
         cs += exhaustive_small(rng)
     return cs
